@@ -610,7 +610,10 @@ impl Emit for ModuleFunctions {
         }
 
         let mut wasm_code_section = wasm_encoder::CodeSection::new();
-        let generate_map = cx.module.config.preserve_code_transform;
+        // The DWARF rewrite converts addresses through this map as well, whatever the order in
+        // which `generate_dwarf` and `preserve_code_transform` were set.
+        let generate_map =
+            cx.module.config.preserve_code_transform || cx.module.config.generate_dwarf;
 
         // Functions can typically take awhile to serialize, so serialize
         // everything in parallel. Afterwards we'll actually place all the
